@@ -433,7 +433,7 @@ def _style(envtext):
     for k, v in envtext.items():
         toks = tuple(remove_whitespace(tinycss2.parse_component_value_list(v)))
         if toks:      # preprocess_declarations drops a custom property without tokens
-            cascaded[k.replace('-', '_')] = (toks, 0)
+            cascaded['__' + k[2:]] = (toks, 0)     # the key preprocess_declarations gives a custom property
     return ComputedStyle(None, cascaded, None, None, None, None)
 
 
